@@ -1,0 +1,63 @@
+//go:build verif
+// +build verif
+
+package tally
+
+import (
+	"io"
+	"time"
+
+	"github.com/uber-go/tally/v4/internal/verifhook"
+)
+
+// This file exists only under the "verif" build tag. It gives the external
+// verification harness (a separate module, which cannot import internal
+// packages or unexported identifiers) access to a few internals.
+
+// VerifHooks mirrors verifhook.Hooks.
+type VerifHooks = verifhook.Hooks
+
+// VerifSetHooks installs the schedule/observation callbacks.
+func VerifSetHooks(h *VerifHooks) { verifhook.Set(h) }
+
+// VerifNewRootScope is NewRootScope with an explicit registry shard count.
+func VerifNewRootScope(opts ScopeOptions, interval time.Duration, shards uint) (Scope, io.Closer) {
+	opts.registryShardCount = shards
+	s := newRootScope(opts, interval)
+	return s, s
+}
+
+// VerifNewTestScope is NewTestScope with an explicit registry shard count.
+func VerifNewTestScope(prefix string, tags map[string]string, shards uint) TestScope {
+	return newRootScope(ScopeOptions{
+		Prefix:             prefix,
+		Tags:               tags,
+		testScope:          true,
+		registryShardCount: shards,
+	}, 0)
+}
+
+// VerifReportOnce runs one report pass (registry report followed by Flush),
+// exactly what the report loop does on a tick.
+func VerifReportOnce(s Scope) { s.(*scope).reportLoopRun() }
+
+// VerifSetNow replaces the clock used by stopwatches and returns a restore func.
+func VerifSetNow(f func() time.Time) (restore func()) {
+	old := globalNow
+	globalNow = f
+	return func() { globalNow = old }
+}
+
+// VerifKeyForPrefixedStringMaps exposes the multi-map key writer.
+func VerifKeyForPrefixedStringMaps(prefix string, maps ...map[string]string) string {
+	return keyForPrefixedStringMaps(prefix, maps...)
+}
+
+// VerifScopeTags returns the scope's own tag map (not a copy).
+func VerifScopeTags(s Scope) map[string]string { return s.(*scope).tags }
+
+// VerifScopePrefix returns the scope's full prefix.
+func VerifScopePrefix(s Scope) string { return s.(*scope).prefix }
+
+// VerifNumShards returns the registry shard count of the scope's root.
+func VerifNumShards(s Scope) int { return len(s.(*scope).registry.subscopes) }
